@@ -33,6 +33,7 @@ USE_MODES = {
     "recvsame": True,     # v.v = 1               (receiver spelt like the member it selects)
     "deepexpr": True,     # self.Total = v + 1 + 1 + … (80 operands: the mention is the DEEPEST node of a left-nested tree)
     "deepnest": True,     # inside 36 nested blocks
+    "absolute": True,     # var view<V> : int absolute v   (mentioned by the `absolute` clause of ANOTHER local's declaration only)
 }
 # purge modes of a tVarByteArray local: True = purged in its own method
 PURGE_MODES = {
@@ -211,6 +212,10 @@ def render(p):
                 o.line("  %s.%s = 1" % (use, use))
             elif v.use == "deepexpr":
                 o.line("  self.Total = %s%s" % (use, " + 1" * 80))
+            elif v.use == "absolute":
+                other = "view" + v.name[:1].upper() + v.name[1:]
+                l = o.line("  var %s : int absolute %s" % (other, use))
+                o.flag("unused", l, 6, other)       # the overlaying local itself is never mentioned
             elif v.use == "deepnest":
                 for d in range(36):
                     o.line("  %sif self.Flag" % (" " * d))
